@@ -203,6 +203,9 @@ impl Property for C10 {
     fn required_classes(&self) -> Vec<&'static str> {
         vec!["hazard:divzero", "hazard:unresolved", "hazard:zxread", "hazard:randombound", "hazard:signext", "width>=63", "driver-error", "static-run", "random", "declare"]
     }
+    fn check_raw(&self, _kind: &str, data: &[u8]) -> Option<(String, String)> {
+        crate::fuzzglue::run_structured_kv(data)
+    }
     fn fuzz_targets(&self) -> Vec<&'static str> {
         vec!["run_structured"]
     }
